@@ -243,6 +243,9 @@ func computeFacts(p *Prog) (*Facts, error) {
 					switch cb := strip(c.Common().Args[cbIdx]).(type) {
 					case *ssa.MakeClosure:
 						ls.Callback = cb.Fn.(*ssa.Function)
+						if m := p.boundMethod[ls.Callback]; m != nil {
+							ls.Callback = m // a bound method value: the method body is the critical section
+						}
 					case *ssa.Function:
 						ls.Callback = cb
 					}
